@@ -16,6 +16,8 @@ fn main() {
 		mc_common::par::set_quiet(false);
 		let code = match prop.as_str() {
 			"C01" => checks::c01::replay(&name, &actions),
+			"C02" => checks::c02::replay("C02", &name, &actions),
+			"C03" => checks::c02::replay("C03", &name, &actions),
 			"C05" => checks::c05::replay(&name, &actions),
 			"C09" => checks::c09::replay(&name, &actions),
 			"C10" => checks::c10::replay(&name, &actions),
@@ -25,6 +27,8 @@ fn main() {
 	}
 	let code = match args.property.as_str() {
 		"C01" => checks::c01::run(&args),
+		"C02" => checks::c02::run(&args, "C02"),
+		"C03" => checks::c02::run(&args, "C03"),
 		"C05" => checks::c05::run(&args),
 		"C09" => checks::c09::run(&args),
 		"C10" => checks::c10::run(&args),
